@@ -19,9 +19,14 @@ CLAIMED = {
         text="Proof: `lint_iff`, `lint_ok_or_valueError`, `lint_order_irrelevant` hold for every graph (well- or ill-formed), "
              "all 16 flag combinations and every set-iteration order, about a line-by-line model of utils.lint whose type lists "
              "are extracted from the sources on every run (`tables_lint`, `tables_supported` by `decide`). The model is tied to "
-             "the code by running both on generated well-formed and deliberately ill-formed graphs; the second half of the "
-             "statement (library outputs are lint-clean) is checked by running the real generators/transforms and is a search, "
-             "not a theorem.",
+             "the code by running both on generated well-formed and deliberately ill-formed graphs. Second half: "
+             "`lint_accepts` / `lintClean_of_lint_ok` link the specification-level `LintClean` (what the transform theorems "
+             "establish) with the linter (`lint_misses_bb_input_fanout`: the one clause lint does not look at), and "
+             "`limit_fanin_passes_lint`, `limit_fanout_passes_lint`, `logic_blocks_pass_lint` (all widths), "
+             "`roundtrip_passes_lint`, `writable_passes_lint`, `acyclic_unroll_passes_lint` prove it for those producers; "
+             "`miter_may_fail_lint` exhibits the exception the property names (untied startpoints). For the remaining "
+             "producers (unroll, ternary, sensitivity transforms, composition, bench reader) the second half is checked by "
+             "running the real functions and is a search, not a theorem.",
         note=TRUST + " `Violates` (the documented rule list) is my reading of the docstring/property text.",
         ref="§4 C20"),
     "C16": dict(
@@ -262,6 +267,23 @@ CLAIMED = {
              "their theorems are not yet proved.",
         note=TRUST + " `Good`: lint-clean, blackbox-free, no `x` constants; `sensitivity_spec` additionally acyclic.",
         ref="§4 C11"),
+    "C14": dict(
+        technique="Lean 4 theorem (graph assembly of the fast parser = transformer of the full parser, up to the names of "
+                  "the constant nodes, for every netlist of the documented subset, every statement order and set order) "
+                  "about models of fast_verilog.py (regular expressions regenerated from the source each run) and "
+                  "verilog.py + exact differential correspondence (fast parser vs model; regex engine vs CPython re) + "
+                  "fast-vs-full search on generated and bundled netlists",
+        text="Proof: `fast_agrees_full` (for every netlist of the restricted subset — any gate mix and arity, constants as "
+             "gate operands / in assigns / on blackbox input pins, unconnected pins, use before definition, repeated "
+             "operands — both parsers succeed and return the same name, nodes, types, output marks, edges and registry up to "
+             "tie0/tie1 vs tie_0/tie_1), `fast_same_io` (same inputs/outputs = the declared ones; consistent valuations "
+             "transfer), `fast_lint_clean`, `tables_regex_fast`, `tables_primitive`. Partial: the theorem is at statement "
+             "level (`RMod.toFParsed` = what the regular expressions deliver, `RMod.toModule` = what the grammar delivers); "
+             "that the real regexes / lark deliver exactly these for every legal layout is tied by the differential run "
+             "(regex engine vs CPython `re` on the extracted patterns, text -> circuit exact) only.",
+        note=TRUST + " `Restricted`: every net an input or driven exactly once, every net read is driven, unary gates have "
+             "one operand, named ports of a known blackbox, names not colliding with either parser's constant nodes.",
+        ref="§4 C14"),
 }
 
 NOT_YET = "check not built yet in this round (see DESIGN.md §4 for the plan); will be claimed when its Lean model and harness exist"
